@@ -6,7 +6,7 @@ ID = "C17"
 THEOREMS = "Properties/C17.v"
 HARNESS = ["c17"]
 LEVEL = "proof"
-READY = False
+READY = True
 TRUSTED_BASE = [
     "Coq 8.16.1 kernel (coqc, full .vo build); vm_compute in Examples, in the refutation of the un-repaired variant and in the correspondence evaluation",
     "no axioms: Print Assumptions reports 'Closed under the global context' for every theorem of Properties/C17.v",
@@ -215,7 +215,7 @@ def model_mismatches(cases, results, name):
 
 def run(ctx):
     rng = ctx.rng
-    n = 150 if ctx.tier == "quick" else 1500
+    n = 400 if ctx.tier == "quick" else 4000
     if ctx.replay:
         rp = json.load(open(ctx.replay))
         cases = [rp["case"]]
@@ -283,6 +283,19 @@ MANIFEST = {
     "category": "proof",
     "technique": "Coq proof over a lifecycle LTS with a counting abstraction over any number of Stop and Run callers (inductive invariant, "
                  "enabledness, decreasing measure) + phase-scripted differential correspondence against the real MPCalContext",
-    "text": "",
-    "level_note": "",
+    "text": ("Theorems in coq/Properties/C17.v, closed under the global context, for ANY number of goroutines calling Stop and ANY number calling Run, "
+             "every interleaving, every plan of attempts (any durations, any way of ending or none), every resource mix, every Close duration: "
+             "run_at_most_once; no_double_close (awaitExit and every closable at most once at any time; IncMap creates one element per key); "
+             "closed_exactly_once (when a started run has returned every configured resource / HashMap element / realised IncMap element / nested context was closed exactly once); "
+             "deadlock_free (any in-flight call => some in-flight goroutine can step); stop_terminates (measure decreasing on every step but a poll that finds no request; "
+             "once a Stop is past its request every execution has at most mu steps) with quiescent_means_all_returned; stop_returns_after_the_end; no_commit_after_stop; "
+             "run_reports_once / outcomes_distinct. pinned_deadlocks and pinned_runs_twice refute the statement for the un-repaired variant of the same model (both reproduced on the real code, "
+             "then repaired by two fix: commits). Tie: harness/cmd/c17 drives the real MPCalContext through phase scripts (instrumented resources whose Close blocks until released; "
+             "k<=8 Stops released before Run / racing Run / while a body is blocked / during cleanup / after exit; further Run calls), and the same script drives the model's LTS inside Coq; "
+             "hang flag, start, Run's error class, commits, attempts, Close count of every instance, IncMap creation order, returned Stops, refused Runs are compared; "
+             "an implementation-side oracle checks the statement directly (every call returns, each Close exactly once, no commit after a Stop returned, further Runs refused, distinct error classes)."),
+    "level_note": ("Trusted: Coq kernel; the hand-written model (tie = phase-scripted differential testing: 400 quick / 4000 thorough scripts, so a code change is caught only if a script reaches it); "
+                   "Go's mutex/channel/defer semantics as the model's primitive steps. Partial: the goroutine scheduler is only sampled (the driver lets released Stops settle for 3 ms; a differing case is "
+                   "re-run once before it counts); liveness is a decreasing measure plus enabledness, scheduler fairness is assumed; a Nested resource's drain is the same theorem instantiated for the inner context, "
+                   "not a single composed LTS; real FailureDetector/TCPMailboxes Close are not driven by this check."),
 }
